@@ -141,6 +141,72 @@ pub fn boundary_epochs(thorough: bool) -> Vec<i64> {
     v
 }
 
+/// The configured current instant as the user gives it: through the binary. Boundary probes with
+/// sub-second distances to the expiry instant, `now` spelled in several zones, several configured
+/// offsets. Ready iff now >= to (as instants); no rounding in either direction.
+fn cli_leg(ctx: &mut Ctx) {
+    let bin = std::env::var("CV_CLI_BIN").unwrap_or_default();
+    if bin.is_empty() || !std::path::Path::new(&bin).exists() {
+        ctx.count("cli-leg-unavailable (CV_CLI_BIN not built)");
+        return;
+    }
+    let dir = format!("{}/c05-{}", std::env::var("CV_TMP").unwrap_or_else(|_| "/verif/build/tmp".into()), ctx.shard);
+    if std::fs::create_dir_all(&dir).is_err() {
+        ctx.inconclusive("cannot create scratch directory");
+        return;
+    }
+    let to_wall = "2020-06-15 12:00:00";
+    let text = format!("a();\n<!-- <time-limited to=\"{to_wall}\"> -->\nb();\n<!-- </time-limited> -->\nc();\n");
+    let path = format!("{dir}/in.txt");
+    if std::fs::write(&path, &text).is_err() {
+        ctx.inconclusive("cannot write probe file");
+        return;
+    }
+    let to_utc = parse_rfc3339("2020-06-15T12:00:00+00:00").unwrap();
+    // (millisecond distance to the expiry instant, expected ready)
+    let deltas: [i64; 13] = [-86_400_000, -1000, -999, -750, -500, -250, -1, 0, 1, 250, 500, 999, 1000];
+    for (oi, (off_s, off)) in [("", 0i64), ("+09:00", 32400), ("-03:30", -12600), ("+0545", 20700), ("-1200", -43200)].iter().enumerate() {
+        // `to` is a wall-clock time at the configured offset: its instant is to_utc - off
+        let expiry_ms = (to_utc - off) * 1000;
+        for d in deltas {
+            for (zi, zone) in [0i64, 32400, -28800].iter().enumerate() {
+                let now_ms = expiry_ms + d;
+                let secs = now_ms.div_euclid(1000);
+                let ms = now_ms.rem_euclid(1000);
+                let z = fmt_rfc3339(secs, *zone);
+                let now = if ms == 0 && (oi + zi) % 2 == 0 { z.clone() } else { format!("{}.{:03}{}", &z[..19], ms, &z[19..]) };
+                let want = d >= 0;
+                let mut args = vec![format!("--filename={path}"), format!("--time-limited-current={now}")];
+                if !off_s.is_empty() {
+                    args.push(format!("--time-limited-time-offset={off_s}"));
+                }
+                ctx.eval();
+                let rp = json!({"kind": "time-cli", "text": text, "args": args[1..], "want": want});
+                match std::process::Command::new(&bin).args(&args).env("TZ", ["UTC", "Asia/Tokyo", "America/Los_Angeles"][zi]).output() {
+                    Err(e) => ctx.inconclusive(&format!("cannot run binary: {e}")),
+                    Ok(o) => {
+                        let so = String::from_utf8_lossy(&o.stdout).to_string();
+                        let ok = if want { nonws(&so) == "a();c();" } else { so == text };
+                        if !o.status.success() {
+                            ctx.violation("cli-boundary", format!("binary exited with {:?} (args {:?}): {}", o.status.code(), &args[1..], trunc(&String::from_utf8_lossy(&o.stderr), 200)), rp);
+                        } else if !ok {
+                            ctx.violation(
+                                "cli-boundary",
+                                format!("to={to_wall:?} at offset {:?}, current instant {now:?} ({d} ms {} the expiry instant): expected {}, got {:?}", off_s, if d < 0 { "before" } else { "at/after" }, if want { "removed" } else { "kept" }, trunc(&so, 100)),
+                                rp,
+                            );
+                        } else {
+                            ctx.nontrivial(hash64(&[format!("{args:?}").as_bytes()]));
+                            ctx.count(if want { "cli-boundary:removed" } else { "cli-boundary:kept" });
+                        }
+                    }
+                }
+            }
+        }
+    }
+    let _ = std::fs::remove_dir_all(&dir);
+}
+
 pub fn run(ctx: &mut Ctx) {
     let quick = ctx.tier == Tier::Quick;
     ctx.set_budget_secs(if quick { 20 } else { 240 });
@@ -275,7 +341,11 @@ pub fn run(ctx: &mut Ctx) {
         let mut r = Rng::for_case(seed, 52, i);
         mono_one(ctx, &mut r, &sp);
     }
-    ctx.note("rule", json!("distinct (to, offset, now) triples / probe documents / histories whose observed decision equals the reference decision"));
+    // ---- the binary: boundary probes with sub-second distances (one shard: ~200 process runs)
+    if shard == 0 {
+        cli_leg(ctx);
+    }
+    ctx.note("rule", json!("distinct (to, offset, now) triples / probe documents / histories / binary invocations whose observed decision equals the reference decision"));
     ctx.note("offsets", json!("-12:00..+14:00 in 15-minute steps, both spellings"));
 }
 
@@ -353,6 +423,25 @@ pub fn replay(ctx: &mut Ctx, v: &Value) -> Result<(), String> {
                         ctx.violation("replay", format!("probe output {:?}, expected {}", trunc(&out, 120), if want { "removed" } else { "unchanged" }), v.clone());
                     }
                 }
+            }
+            Ok(())
+        }
+        Some("time-cli") => {
+            let Ok(bin) = std::env::var("CV_CLI_BIN") else { return Err("CV_CLI_BIN not set".into()) };
+            let text = s("text").ok_or("no text")?;
+            let want = v.get("want").and_then(|x| x.as_bool()).ok_or("no want")?;
+            let args: Vec<String> = v.get("args").and_then(|x| x.as_array()).ok_or("no args")?.iter().filter_map(|x| x.as_str().map(|s| s.to_string())).collect();
+            let dir = std::env::var("CV_TMP").unwrap_or_else(|_| "/verif/build/tmp".into());
+            let _ = std::fs::create_dir_all(&dir);
+            let path = format!("{dir}/c05-replay.txt");
+            std::fs::write(&path, &text).map_err(|e| e.to_string())?;
+            ctx.eval();
+            let o = std::process::Command::new(&bin).arg(format!("--filename={path}")).args(&args).output().map_err(|e| e.to_string())?;
+            let so = String::from_utf8_lossy(&o.stdout).to_string();
+            if (want && nonws(&so) == "a();c();") || (!want && so == text) {
+                ctx.nontrivial(hash_str(&text));
+            } else {
+                ctx.violation("replay", format!("binary output {:?}, expected {}", trunc(&so, 120), if want { "removed" } else { "unchanged" }), v.clone());
             }
             Ok(())
         }
